@@ -711,6 +711,9 @@ def check(run, db, tier):
     run.rule('C10.lstsq', 'data and modes are restricted by one and the same finite-mask before the solve')
     run.rule('C10.basis', 'Q->P change of basis (Qbfs, Q2d): every entry is the transposed Q recurrence with the coefficient indices of its own order; initial entries are the step restricted; the sweep reaches 0')
     run.rule('C10.assembly', 'Clenshaw results are alpha_0 P_0 + alpha_1 (P_1 - L_0 P_0) with the value routine\'s P_0, P_1, L_0; the effective Q2d coefficients of the special orders reproduce the published starting polynomials and the m = 1 correction is their residual')
+    from . import c12
+    from .c02 import Proxy
+    run.group(c12.coord_pure_rules, Proxy(run, {'C12.cache': 'C10.lstsq'}), db)
     for fn in (clenshaw_rules, basis_rules, assembly_rules, len1_rules, sym_rules, mirror_rules, counter_rules, pack_rules, lstsq_rules):
         run.group(fn, run, db)
     run.require_instances('C10.basis', 9)
